@@ -206,6 +206,20 @@ CLAIMS['C04'] = (
     'with exact keys; a weak reference search costs completeness only',
     'DESIGN.md §6 C04')
 
+CLAIMS['C07'] = (
+    'model_checking',
+    'explicit-state BFS over edit histories of a generated C project built with the real gcc, make/refninja and bfg9000-depfixer; reference include scanner as oracle',
+    'For 7 header-name classes (plain, space, #, $, %, leading ~, colon/parentheses) and both backends, a small C '
+    'project whose program output is a function of its file contents is built with the real gcc through a logging '
+    'wrapper; breadth-first search to depth 2/3 over edit operations (modify each header/source, add a header, drop '
+    'an include and delete the header, rename a transitively included header, clean) from the built state and every '
+    'reached state (snapshots carry the real build tree, depfiles and deps log along). After each edit: the build '
+    'succeeds, the compiled translation units are exactly those whose include closure (reference scanner on the '
+    'model) contains a changed file, the program prints the model\'s values, an immediate rebuild compiles nothing.',
+    'name classes that a hand-written Makefile or gcc\'s own depfile cannot express are excluded at run time and '
+    'listed in the evidence; Ninja side uses refninja\'s deps=gcc handling (Appendix A)',
+    'DESIGN.md §6 C07')
+
 # --- more claims are appended above this line ---
 NOT_YET = 'check not built yet in this session (see DESIGN.md §10 build order); not claimed until it is'
 NOT_APPLICABLE = {}
